@@ -666,6 +666,7 @@ class Renderer:
             btxt = re.sub(r"\bSelf\b", re.sub(r"<.*", "", compact(h.impl["self_ty_text"])), btxt)
         pre = "".join("let __i%d = %s;\n" % (k, arg_texts[k] if arg_texts else self.render(a)) for k, a in enumerate(arg_nodes))
         pre += "".join("let %s%s = __i%d;\n" % ("mut " if i.get("mut") else "", i["name"], k) for k, i in enumerate(params))
+        self.log += [x for x in sub.log if x not in self.log]     # rewrites applied inside the expansion (an R6 site stays a trusted site of the caller)
         self.log.append("R20 call of the new private helper `%s` expanded in place" % name)
         self.inlined = getattr(self, "inlined", []) + [name]
         return "{ " + pre + btxt + " }"
@@ -1203,7 +1204,7 @@ def generate(outdir, stub=None, probe=False, nohints=None):
         if fn.key in recs or (fn.impl is not None and fn.impl.get("trait")) or fn.node.get("vis", "") == "pub":
             continue
         kinds = set(x["k"] for x in walk_tree(fn.node["tree"]))
-        if kinds & {"While", "ForLoop", "Loop", "Return", "Try", "Closure"}:
+        if kinds & {"While", "ForLoop", "Loop", "Return", "Try"}:
             continue
         nm = fn.name
         if names_all.count(nm) != 1 or nm in COMMON or re.search(r"\bfn %s\b" % re.escape(nm), stub_text):
